@@ -73,11 +73,19 @@ def gen_num(rng):
 
 
 def sep(rng, style):
-    return " " if style == 0 else " " * rng.randrange(1, 4)
+    return " " if style in (0, 3) else " " * rng.randrange(1, 4)
+
+
+NONASCII = ["Å", "°", "µ", "é", "→", "∑", "日本", "😀", "ß", "ñ"]   # 2-, 3- and 4-byte UTF-8 characters, no whitespace
+
+
+def blen(text):
+    return len(text.encode("utf-8"))
 
 
 def gen_xyz(rng, natoms, nframes, style):
-    """style 0: compact single blanks; 1: CP2K-like (leading blanks, wide columns); 2: random blanks, blank comment"""
+    """style 0: compact single blanks; 1: CP2K-like (leading blanks, wide columns); 2: random blanks, blank comment;
+    3: non-ASCII characters in the free-text places (comment line, atom names)"""
     text = ""
     frames = []
     bounds = [0]
@@ -86,18 +94,22 @@ def gen_xyz(rng, natoms, nframes, style):
         text += f"{lead}{natoms}" + ("" if style != 2 else " " * rng.randrange(0, 2)) + "\n"
         if style == 2 and rng.random() < 0.4:
             text += "\n"
+        elif style == 3:
+            k = rng.randrange(1, 5)
+            text += (f" a = {gen_num(rng)} {rng.choice(NONASCII)}, T = 300 {rng.choice(NONASCII)}K "
+                     + "".join(rng.choice(NONASCII) for _ in range(k)) + rng.choice(["", " end", "µ"]) + "\n")
         else:
             text += f" i = {fr}, time = {fr * 0.5:.3f}, E = {gen_num(rng)}\n"
         rows = []
         for a in range(natoms):
             toks = [gen_num(rng) for _ in range(3)]
             rows.append(toks)
-            name = rng.choice(["H", "O", "C", "Ar", "X1"])
+            name = rng.choice(["H", "O", "C", "Ar", "X1"]) if style != 3 else rng.choice(["Cα", "Å", "H", "O→", "µ1"])
             lead = "" if style == 0 else " " * rng.randrange(0, 3)
             trail = " " * rng.randrange(0, 2) if style == 2 else ""
             text += lead + name + "".join(sep(rng, style) + t for t in toks) + trail + "\n"
         frames.append(rows)
-        bounds.append(len(text))
+        bounds.append(blen(text))
     return text, frames, bounds
 
 
@@ -107,14 +119,15 @@ def gen_lmp(rng, natoms, nframes, style):
     bounds = [0]
     for fr in range(nframes):
         ncols = rng.choice([2, 3])
-        text += f"ITEM: TIMESTEP\n{fr * 10}\nITEM: NUMBER OF ATOMS\n{natoms}\n"
-        text += "ITEM: BOX BOUNDS xy xz yz pp pp pp\n" if ncols == 3 else "ITEM: BOX BOUNDS pp pp pp\n"
+        u = (lambda: " " + rng.choice(NONASCII)) if style == 2 else (lambda: "")
+        text += f"ITEM: TIMESTEP{u()}\n{fr * 10}\nITEM: NUMBER OF ATOMS{u()}\n{natoms}\n"
+        text += f"ITEM: BOX BOUNDS xy xz yz pp pp pp{u()}\n" if ncols == 3 else f"ITEM: BOX BOUNDS pp pp pp{u()}\n"
         box = []
         for _ in range(3):
             toks = [gen_num(rng) for _ in range(ncols)]
             box.append(toks + ["0"] * (3 - ncols))
             text += sep(rng, style).join(toks) + "\n"
-        text += "ITEM: ATOMS id type x y z vx vy vz id\n"
+        text += f"ITEM: ATOMS id type x y z vx vy vz id{u()}\n"
         ids = list(range(1, natoms + 1))
         rng.shuffle(ids)
         if natoms >= 10 and ids[-1] < 10:   # a multi-digit trailing id on the last line: the sentinel matters
@@ -125,9 +138,10 @@ def gen_lmp(rng, natoms, nframes, style):
             toks = [gen_num(rng) for _ in range(6)]
             rows[i - 1] = toks
             lead = "" if style == 0 else " " * rng.randrange(0, 2)
-            text += lead + sep(rng, style).join([str(i), str(rng.randrange(1, 3))] + toks + [str(i)]) + "\n"
+            typ = str(rng.randrange(1, 3)) if style != 2 else rng.choice(["Cα", "Å", "1", "µ2"])
+            text += lead + sep(rng, style).join([str(i), typ] + toks + [str(i)]) + "\n"
         frames.append((rows, box))
-        bounds.append(len(text))
+        bounds.append(blen(text))
     return text, frames, bounds
 
 
@@ -553,6 +567,66 @@ def trr_predicate(out, frames, ends):
     return None
 
 
+def check_trr_header(ctx):
+    """real read_trr_header on header bytes (valid for all block combinations / byte orders / precisions, and
+    malformed: wrong magic, wrong version, inconsistent sizes, natoms 0, every truncation) vs Lean `trrHeader`"""
+    import io
+    from infretis.classes.engines import gromacs as gm
+    rng = ctx.rng
+    cases = []
+    for endian, double in itertools.product("<>", (False, True)):
+        for blocks in TRR_COMBOS:
+            h, b, _ = trr_frame(endian, double, rng.randrange(1, 50), rng.randrange(0, 10 ** 6), rng, blocks)
+            cases.append(h + b[:rng.randrange(0, 9)])
+        h, b, _ = trr_frame(endian, double, 7, 3, rng, "xv")
+        cases += [h[:k] for k in range(0, len(h) + 1)]                       # every truncation
+        cases.append(b"\x00\x00\x00\x01" + h[4:])                            # wrong magic both ways
+        cases.append(h[:12] + b"GMX_trn_fil\x00" + h[24:])                   # wrong version
+        cases.append(h[:12] + b"GMX\x00rn_file" + h[24:])
+        sw = ">" if endian == "<" else "<"
+        for pos, val in ((4, 1), (4, 0), (4, 5), (4, 40), (24 + 8, 70), (24 + 8, 0), (24 + 40, 0), (24 + 8, -72)):
+            # slen[0]; box_size; natoms (with box 0 below)
+            cases.append(h[:pos] + struct.pack(endian + "i", val) + h[pos + 4:])
+        nobox = h[:24 + 8] + struct.pack(endian + "i", 0) + h[24 + 12:]
+        cases.append(nobox)
+        cases.append(nobox[:24 + 40] + struct.pack(endian + "i", 0) + nobox[24 + 44:])   # natoms 0 -> ZeroDivisionError
+        cases.append(h[:4] + struct.pack(sw + "2i", 13, 12) + h[12:])          # slen in the other byte order
+    code = []
+    for bs in cases:
+        f = io.BytesIO(bs)
+        try:
+            hd, n = gm.read_trr_header(f)
+            ds = sum(hd[k] for k in gm.TRR_DATA_ITEMS)
+            code.append(f"ok {hd['endian']} {1 if hd['double'] else 0} {n} {ds} {len(bs) - f.tell()} "
+                        + ",".join(str(hd[k]) for k in TRR_KEYS + ["natoms", "step", "nre"]))
+        except EOFError:
+            code.append("err:eof")
+        except struct.error:
+            code.append("err:struct")
+        except ZeroDivisionError:
+            code.append("err:zerodiv")
+        except ValueError:
+            code.append("err:value")
+    if ctx._driver_ok:
+        model = ctx.driver([f"trrhdr {hexs(bs)}" for bs in cases])
+        for bs, c, m in zip(cases, code, model):
+            ctx.count(1, branch="trr:header-bytes:" + ("ok" if c.startswith("ok") else c))
+            if c != m:
+                ctx.disagree({"fn": "read_trr_header vs trrHeader", "bytes": bs.hex()}, c, m)
+    # property on the real decoder: a well-formed header yields exactly the sizes that were written
+    for endian, double in itertools.product("<>", (False, True)):
+        for blocks in TRR_COMBOS:
+            na = rng.randrange(1, 50)
+            h, b, _ = trr_frame(endian, double, na, 1, rng, blocks)
+            hd, n = gm.read_trr_header(io.BytesIO(h + b))
+            ds = sum(hd[k] for k in gm.TRR_DATA_ITEMS)
+            if n != len(h) or ds != len(b) or hd["endian"] != endian or hd["double"] != double:
+                ctx.fail("C13:trr:header-decoding", f"header of a {blocks or 'box-only'} frame decoded to header size {n}, "
+                         f"data size {ds}, endian {hd['endian']}, double {hd['double']}; written {len(h)}, {len(b)}, "
+                         f"{endian}, {double}", {"kind": "trrhdr", "bytes": (h + b).hex(), "hsize": len(h),
+                                                "dsize": len(b), "endian": endian, "double": double})
+
+
 def check_trr(ctx, tmpdir):
     rng = ctx.rng
     ncase = 0
@@ -678,27 +752,29 @@ def run(ctx):
         xyz_plan = []   # (natoms, nframes, style, pairs, max_pairs)
         lmp_plan = []
         if ctx.quick:
-            xyz_plan = [(1, 2, 0, True, None), (2, 2, 1, True, 2500), (1, 3, 2, True, 2500), (3, 2, 2, False, None),
-                        (4, 4, 1, False, None), (2, 3, 0, False, None), (1, 1, 1, True, None), (3, 4, 0, False, None)]
-            lmp_plan = [(1, 2, 0, True, 3000), (2, 2, 1, True, 1500), (3, 3, 0, False, None), (4, 4, 1, False, None),
-                        (1, 1, 0, True, None), (2, 4, 0, False, None), (12, 2, 0, False, None)]
+            xyz_plan = [(1, 2, 0, True, None), (2, 2, 1, True, 2000), (1, 3, 2, True, 2000), (3, 2, 2, False, None),
+                        (4, 4, 1, False, None), (2, 3, 0, False, None), (1, 1, 1, True, None), (3, 4, 0, False, None),
+                        (1, 2, 3, True, 2500), (2, 3, 3, True, 1500), (3, 4, 3, False, None)]
+            lmp_plan = [(1, 2, 0, True, 2500), (2, 2, 1, True, 1200), (3, 3, 0, False, None), (4, 4, 1, False, None),
+                        (1, 1, 0, True, None), (2, 4, 0, False, None), (12, 2, 0, False, None),
+                        (1, 2, 2, True, 1500), (3, 3, 2, False, None)]
         else:
             for na in range(1, 5):
                 for nf in range(1, 5):
-                    for style in range(3):
+                    for style in range(4):
                         xyz_plan.append((na, nf, style, na * nf <= 4, 20000))
-                    for style in range(2):
+                    for style in range(3):
                         lmp_plan.append((na, nf, style, na * nf <= 2, 20000))
             lmp_plan += [(12, 2, 0, False, None), (11, 3, 1, False, None)]
         for j, (na, nf, style, pairs, mp) in enumerate(xyz_plan):
             text, frames, bounds = gen_xyz(rng, na, nf, style)
-            seqs = cut_seqs(len(text), pairs, rng, mp)
+            seqs = cut_seqs(blen(text), pairs, rng, mp)
             check_text(ctx, ep, rf, "xyz", text, frames, bounds, seqs, f"xyz{j}:{na}x{nf}:s{style}")
             if j < 2:
                 ctx.sample({"kind": "xyz", "text": text, "n_cut_sequences": len(seqs)})
         for j, (na, nf, style, pairs, mp) in enumerate(lmp_plan):
             text, frames, bounds = gen_lmp(rng, na, nf, style)
-            seqs = cut_seqs(len(text), pairs, rng, mp)
+            seqs = cut_seqs(blen(text), pairs, rng, mp)
             check_text(ctx, ep, rf, "lmp", text, frames, bounds, seqs, f"lmp{j}:{na}x{nf}:s{style}")
             if j < 1:
                 ctx.sample({"kind": "lammpstrj", "text": text, "n_cut_sequences": len(seqs)})
@@ -727,6 +803,7 @@ def run(ctx):
                 if code != m:
                     ctx.disagree({"fn": "lammpstrj_reader malformed vs model", "text": t}, code, m)
 
+        check_trr_header(ctx)
         ntrr = check_trr(ctx, tmpdir)
         ctx.extra["trr_schedules"] = ntrr
         ctx.extra["signatures_failing"] = ctx.extra.pop("_c13_reported", [])
@@ -735,19 +812,28 @@ def run(ctx):
     ctx.exhaustive = False
     ctx.extra["exhaustive_part"] = ("per generated trajectory: all single cut points; all pairs of cut points for the "
                                     "small trajectories (sampled above the stated cap)")
-    ctx.assumptions += [
-        "ASCII text without '\\r' (text-mode tell() == byte offset; no universal-newline translation)",
+    new_assumptions = [
+        "text is modelled as bytes with '\\n' as the only structural byte; UTF-8 multi-byte characters are allowed in "
+        "the free-text places (xyz comment line and atom names, LAMMPS header texts and type token) and cuts inside "
+        "them are enumerated; excluded: '\\r' (universal-newline translation), non-ASCII Unicode whitespace "
+        "(U+0085, U+00A0, U+2000.., U+3000: str.split() would split there, the byte model does not), and a locale "
+        "whose encoding is not UTF-8",
         "constant atom count over a trajectory (the readers learn N only from the first frame of each poll)",
         "LAMMPS atom lines carry no blanks after the trailing id (dump custom of current LAMMPS); with a trailing "
         "blank the late-newline skip of lammpstrj_reader does not match and the next poll raises ValueError",
         "number tokens restricted to [+-]digits[.digits][e[+-]digits] (no inf/nan/underscores); float()/numpy "
         "string-to-double conversion assumed correctly rounded and identical",
-        "TRR: the Lean model covers the size guards only (frame = header size + data size; theorem needs equal "
-        "header sizes ≤ TRR_HEAD_SIZE); decoding/byte order/precision are checked by the tie on struct-written "
-        "frames (box+x+v, no forces); reopen_file/read_remaining_trr only as far as the schedules reach them",
+        "TRR: the Lean model covers the size guards (frame = header size + its own data size; theorem needs equal "
+        "header sizes ≤ TRR_HEAD_SIZE) and the header decoding at byte level (trr_header_bytes: bytes -> 13 ints, "
+        "byte order, precision, header/data size); the float payload is compared bit-for-bit by the tie only, on "
+        "struct-written frames (box + any subset of x, v, f per frame, both byte orders and precisions); "
+        "reopen_file/read_remaining_trr only as far as the schedules reach them",
         "xyz theorems for the as-is reader hold only for cuts at line ends (xyz_safety_partial); the unrestricted "
         "theorem is proved for the `repaired` variant of the model",
     ]
+    for a in new_assumptions:      # run() may be called again with further seeds
+        if a not in ctx.assumptions:
+            ctx.assumptions.append(a)
 
 
 def replay(ctx, obj):
@@ -774,6 +860,12 @@ def replay(ctx, obj):
             print("last:", out[-1] if out else out, "| frames yielded:", sum(1 for s in out if not isinstance(s, str)),
                   "of", r["nframes"], "| short reads:", bad[:2])
             return 1 if bad or any(isinstance(s, str) for s in out) or len(out) != r["nframes"] else 0
+        if r.get("kind") == "trrhdr":
+            import io
+            from infretis.classes.engines import gromacs as gm
+            hd, n = gm.read_trr_header(io.BytesIO(bytes.fromhex(r["bytes"])))
+            ds = sum(hd[k] for k in gm.TRR_DATA_ITEMS)
+            return 0 if (n, ds, hd["endian"], hd["double"]) == (r["hsize"], r["dsize"], r["endian"], r["double"]) else 1
         if r.get("kind") == "absent":
             r0 = ep.ReadAndProcessOnTheFly(os.path.join(tmpdir, "absent.xyz"), ep.xyz_reader)
             try:
